@@ -4,19 +4,25 @@
    * + ? {m} {m,n}, \d \s \w.  Render gives the pattern text, Den its denotation over Sigma^<=L. *)
 EXTENDS PyRegexSem
 CONSTANTS Depth
-Items == { [k |-> "c", c |-> c] : c \in {"a", "-", "]", ".", "*", "(", "+"} } \cup { [k |-> "r", lo |-> "a", hi |-> "c"], [k |-> "r", lo |-> "0", hi |-> "9"], [k |-> "s", s |-> "d"],
+Items == { [k |-> "c", c |-> c] : c \in {"a", "-", "]", ".", "*", "(", "+", "$", "["} } \cup { [k |-> "r", lo |-> "a", hi |-> "c"], [k |-> "r", lo |-> "0", hi |-> "9"], [k |-> "s", s |-> "d"],
                                                                          [k |-> "r", lo |-> "*", hi |-> "0"], [k |-> "r", lo |-> "+", hi |-> "9"], [k |-> "r", lo |-> " ", hi |-> "-"] }
 Atoms == { [t |-> "lit", c |-> c] : c \in {"a", "b", ".", "*", "-", "(", "+", "?", " "} } \cup { [t |-> "dot"] }
          \cup { [t |-> "short", s |-> k] : k \in {"d", "s", "w"} }
          \cup { [t |-> "set", neg |-> n, items |-> <<i>>] : n \in BOOLEAN, i \in Items }
          \cup { [t |-> "set", neg |-> n, items |-> <<i, j>>] : n \in BOOLEAN, i \in Items, j \in { [k |-> "c", c |-> "b"], [k |-> "c", c |-> "-"], [k |-> "c", c |-> "*"], [k |-> "s", s |-> "d"] } }
+PosSets == { [t |-> "set", neg |-> n, items |-> <<[k |-> "raw", c |-> c], i>>] : n \in BOOLEAN, c \in {"-", "]"},
+                                                                             i \in { [k |-> "c", c |-> "a"], [k |-> "r", lo |-> "a", hi |-> "c"] } }
+           \cup { [t |-> "set", neg |-> n, items |-> <<[k |-> "c", c |-> "a"], [k |-> "raw", c |-> "-"]>>] : n \in BOOLEAN }
+EmptyAlt == { [t |-> "alt", l |-> x, r |-> [t |-> "empty"]] : x \in { [t |-> "lit", c |-> "a"], [t |-> "dot"] } }
+            \cup { [t |-> "alt", l |-> [t |-> "empty"], r |-> [t |-> "lit", c |-> "a"]] }
 Quant(X) == { [t |-> q, x |-> x] : q \in {"star", "plus", "opt"}, x \in X }
             \cup { [t |-> "rep", x |-> x, m |-> m] : x \in X, m \in {0, 1, 2} }
             \cup { [t |-> "rep2", x |-> x, m |-> 2, n |-> 2] : x \in X }
             \cup { [t |-> "rep2", x |-> x, m |-> 0, n |-> 1] : x \in X } \cup { [t |-> "rep2", x |-> x, m |-> 1, n |-> 2] : x \in X }
 Bin(X, Y) == { [t |-> b, l |-> x, r |-> y] : b \in {"cat", "alt"}, x \in X, y \in Y }
 Small == { [t |-> "lit", c |-> "a"], [t |-> "lit", c |-> "b"], [t |-> "dot"], [t |-> "set", neg |-> TRUE, items |-> <<[k |-> "c", c |-> "a"]>>] }
-D1 == Atoms \cup Quant(Atoms) \cup Bin(Small, Small)
+D1 == Atoms \cup Quant(Atoms) \cup Bin(Small, Small) \cup PosSets \cup Quant(PosSets) \cup EmptyAlt
+      \cup { [t |-> "cat", l |-> x, r |-> [t |-> "lit", c |-> "b"]] : x \in EmptyAlt } \cup Quant(EmptyAlt)
 StarCat == { [t |-> q, x |-> [t |-> "cat", l |-> x, r |-> [t |-> q2, x |-> y]]] : q \in {"star", "plus"}, q2 \in {"star", "plus", "opt"},
                                                                                   x \in Small, y \in { [t |-> "lit", c |-> "a"], [t |-> "lit", c |-> "b"] } }
 D2 == D1 \cup Quant(Bin(Small, Small)) \cup Bin(Quant(Small), Small) \cup StarCat \cup Bin(StarCat, { [t |-> "lit", c |-> "c"] })
